@@ -54,6 +54,11 @@ CHECKS = {
          "Every well-typed expression of depth <=2 over the evaluator's own operator table and a literal pool, every let-sequence up to length 3 (thorough 4) whose right-hand sides reuse all earlier names (each binding read back at the end), scope-variable shadowing by where/flatten/transforms, nested transforms over lists, sets and maps with each result type, and calls to other views are evaluated and must equal the reference interpreter's value; a second evaluation must agree.",
          "only operator/kind combinations in the evaluator's dispatch tables; evaluation failure is os.Exit in the library (observed as worker death)",
          "DESIGN.md §4 C10"),
+ "C11": ("exploration",
+         "bounded-exhaustive generation of foreign documents from a description language (OpenAPI 2/3, XSD, SQL DDL), imported by the real importers, compiled back by the real parser and compared with the description; repeated import and import-statement path",
+         "OpenAPI 2 and 3: every property descriptor x required/optional x name pool alone and in all kind pairs, every subset of a required list over four properties, endpoints over 4 path shapes x 5 methods x parameter locations x response shapes (OpenAPI 3 packed into few documents because its importer costs seconds per document); XSD: element type x occurrence bounds x second element, attributes; SQL (spanner): tables x 9 column types x NOT NULL x single/composite keys x foreign keys. Import must succeed, its text must compile, every schema/type/table must appear with every property/column (kind, optionality, array-ness, reference target, key-ness), every operation with its parameters by location and its responses; a second import must give identical text; the same document through 'import x.yaml as Ns :: App' must compile.",
+         "supported subset = what the importers' fixtures use; properties matched through the json_tag annotation",
+         "DESIGN.md §4 C11"),
  "C13": ("exploration",
          "bounded-exhaustive model enumeration (every endpoint body of an alphabet x call targets over all endpoints = all call graphs) through the real generator; PlantUML sequence reader + reference call-tree walk as oracle",
          "For every model of 3 (thorough also 4) endpoints in several application distributions, every start endpoint and every option (plain, group-by attribute, each other endpoint blackboxed) the real GenerateSequenceDiag must return a diagram whose participants are declared exactly once, whose activations balance and never go negative, in which a participant sends a call only while active and every block is closed, and whose call arrows equal the reference walk (source order, a call in progress is shown but not expanded, a blackboxed endpoint is not expanded). 7.4 million diagrams in the quick tier.",
